@@ -25,6 +25,7 @@ func checkC07(p *Prog, r *Report) {
 	ruleC07OpsCase(p, a, r, g)
 	ruleC07ShortCircuit(p, a, r)
 	ruleC07Bool(p, a, r)
+	ruleC07EqKinds(p, a, r)
 	ruleDivisionGuards(p, a, r, "R-C07-DIV", true)
 	ruleC07Sym(p, a, r)
 	ruleC07Fmt(p, a, r)
